@@ -154,6 +154,9 @@ func written(v AV, esc int) string {
 		val := concretise(v).(*pongo2.Value)
 		s = val.String()
 		isStr = val.IsString()
+	case "list", "map":
+		// composite values have no canonical printed form in the specification; their Go rendering is taken as is
+		s = pongo2.AsValue(concretise(v)).String()
 	default:
 		panic("written: unknown kind " + v.K)
 	}
@@ -459,8 +462,15 @@ func snapshotCtx(ctx pongo2.Context) string {
 func renderVec(v *renderVector) (src string, got outcome, want string, wantErr bool, problem string) {
 	defer func() {
 		if r := recover(); r != nil {
-			if _, ok := r.(apError); ok {
-				problem = "SKIP:ApplyFilter failed while concretising the expected output"
+			if ae, ok := r.(apError); ok {
+				// the public ApplyFilter rejects this input: the template must fail as well (C19: same result as ApplyFilter)
+				wantErr = true
+				problem = ""
+				if got.Panic != "" {
+					problem = "panic: " + firstLine(got.Panic)
+				} else if got.Err == "" {
+					problem = fmt.Sprintf("rendered %q, but ApplyFilter on the same values fails: %v", got.Out, ae.err)
+				}
 				return
 			}
 			panic(r)
@@ -738,3 +748,12 @@ func init() {
 		}
 	}
 }
+
+func cmdRegistry(args []string) {
+	rep := newReport("registry")
+	rep.Extra["tags"] = pongo2.VerifRegisteredTags()
+	rep.Extra["filters"] = pongo2.VerifRegisteredFilters()
+	rep.emit()
+}
+
+func init() { commands["registry"] = cmdRegistry }
